@@ -98,6 +98,12 @@ type step struct {
 	Res    string   `json:"res"`
 	Stage  string   `json:"stage"`
 	// concretisation chosen by the check (seeded)
+	// the envelope: number of presentations, position (1..) of the one with the mapped credentials, position of the one
+	// that carries the per-presentation defects; class of the audience of that presentation
+	NVP   int            `json:"nvp"`
+	Main  int            `json:"main"`
+	Pos   int            `json:"pos"`
+	AudV  string         `json:"audv"`
 	VCFmt string         `json:"vcfmt"`
 	Var   map[string]int `json:"var"`
 	Ext   bool           `json:"ext"`
@@ -105,6 +111,8 @@ type step struct {
 	// follow-up of an authorization request the node accepted for a scope nothing is configured for: the definition the
 	// node itself asks for (fetched from presentation_definition_uri)
 	defOverride *pe.PresentationDefinition
+	// "badnonce" realised with the nonce of another live session instead of a nonce of nobody
+	foreignNonce string
 }
 
 type violation struct {
@@ -253,7 +261,8 @@ func newWorld(t *testing.T, in input) *world {
 	w.h1, w.h2, w.hi = newIdent(), newIdent(), newIdent()
 	w.dk["k1"], w.dk["k2"] = newDPoPKey(), newDPoPKey()
 	w.orgName, w.orgCity, w.empName = "ORG-"+uuid.NewString()[:8], "CITY-"+uuid.NewString()[:8], "EMP-"+uuid.NewString()[:8]
-	for _, s := range []string{asSubject, otherSubject, issuerSubj, clientSubject("c1"), clientSubject("c2")} {
+	// tenants whose ids extend this server's id / are a prefix of it (audience classes "extends", "prefix")
+	for _, s := range []string{asSubject, otherSubject, asSubject + "2", asSubject + "-east", asSubject[:1], issuerSubj, clientSubject("c1"), clientSubject("c2")} {
 		d, kid := w.createSubject(t, s)
 		if s == issuerSubj {
 			w.issuerDID = d
@@ -350,14 +359,22 @@ func (w *world) orgSubject(h *ident, city bool) map[string]interface{} {
 	return map[string]interface{}{"id": h.did.String(), "organization": org}
 }
 
+func (w *world) empSubject(h *ident) map[string]interface{} {
+	return map[string]interface{}{"id": h.did.String(), "name": w.empName, "roleName": "nurse"}
+}
+
 // nodeVC lets the issuer subject on the node issue a revocable credential (StatusList2021) and optionally revokes it.
-func (w *world) nodeVC(format string, h *ident, revoke bool) (vc.VerifiableCredential, error) {
+func (w *world) nodeVC(format string, h *ident, revoke bool, typ string) (vc.VerifiableCredential, error) {
 	f := "ldp_vc"
 	if format == "jwt" {
 		f = "jwt_vc"
 	}
+	var subject interface{} = w.orgSubject(h, true)
+	if typ == "NutsEmployeeCredential" {
+		subject = w.empSubject(h)
+	}
 	body, _ := json.Marshal(map[string]interface{}{
-		"type": "NutsOrganizationCredential", "issuer": w.issuerDID, "credentialSubject": w.orgSubject(h, true),
+		"type": typ, "issuer": w.issuerDID, "credentialSubject": subject,
 		"withStatusList2021Revocation": true, "format": f,
 	})
 	resp, err := w.http.Post(w.internal+"/internal/vcr/v2/issuer/vc", "application/json", bytes.NewReader(body))
@@ -390,6 +407,7 @@ func tamperVC(c vc.VerifiableCredential, variant int) (vc.VerifiableCredential, 
 		if variant == 0 {
 			pl, _ := base64.RawURLEncoding.DecodeString(parts[1])
 			pl = bytes.Replace(pl, []byte("ORG-"), []byte("0RG-"), 1)
+			pl = bytes.Replace(pl, []byte("EMP-"), []byte("3MP-"), 1)
 			parts[1] = base64.RawURLEncoding.EncodeToString(pl)
 		} else {
 			parts[2] = flipB64(parts[2])
@@ -405,7 +423,12 @@ func tamperVC(c vc.VerifiableCredential, variant int) (vc.VerifiableCredential, 
 		return c, err
 	}
 	if variant == 0 {
-		m["credentialSubject"].(map[string]interface{})["organization"].(map[string]interface{})["name"] = "0RG-tampered"
+		cs := m["credentialSubject"].(map[string]interface{})
+		if org, ok := cs["organization"].(map[string]interface{}); ok {
+			org["name"] = "0RG-tampered"
+		} else {
+			cs["name"] = "3MP-tampered"
+		}
 	} else {
 		pr := firstProof(m)
 		pr["jws"] = flipJWS(pr["jws"].(string))
@@ -456,30 +479,35 @@ func (w *world) cred(kind, format string, h *ident, variant int) (vc.VerifiableC
 	past := now.Add(-time.Hour)
 	var c vc.VerifiableCredential
 	var err error
+	// "emp+<defect>": the defect on a NutsEmployeeCredential instead of the organization credential
+	typ, subject := "NutsOrganizationCredential", w.orgSubject(h, true)
+	if strings.HasPrefix(kind, "emp+") {
+		kind, typ, subject = strings.TrimPrefix(kind, "emp+"), "NutsEmployeeCredential", w.empSubject(h)
+	}
 	switch kind {
 	case "org":
 		c, err = w.harnessVC(format, "NutsOrganizationCredential", w.orgSubject(h, true), past, nil)
 	case "org_nocity":
 		c, err = w.harnessVC(format, "NutsOrganizationCredential", w.orgSubject(h, false), past, nil)
 	case "emp":
-		c, err = w.harnessVC(format, "NutsEmployeeCredential", map[string]interface{}{"id": h.did.String(), "name": w.empName, "roleName": "nurse"}, past, nil)
+		c, err = w.harnessVC(format, "NutsEmployeeCredential", w.empSubject(h), past, nil)
 	case "expired":
 		if variant == 0 {
 			e := now.Add(-30 * time.Minute)
-			c, err = w.harnessVC(format, "NutsOrganizationCredential", w.orgSubject(h, true), past, &e)
+			c, err = w.harnessVC(format, typ, subject, past, &e)
 		} else { // not valid yet
-			c, err = w.harnessVC(format, "NutsOrganizationCredential", w.orgSubject(h, true), now.Add(time.Hour), nil)
+			c, err = w.harnessVC(format, typ, subject, now.Add(time.Hour), nil)
 		}
 	case "vcsig":
 		var base vc.VerifiableCredential
-		base, err = w.harnessVC(format, "NutsOrganizationCredential", w.orgSubject(h, true), past, nil)
+		base, err = w.harnessVC(format, typ, subject, past, nil)
 		if err == nil {
 			c, err = tamperVC(base, variant)
 		}
 	case "node":
-		c, err = w.nodeVC(format, h, false)
+		c, err = w.nodeVC(format, h, false, typ)
 	case "revoked":
-		c, err = w.nodeVC(format, h, true)
+		c, err = w.nodeVC(format, h, true, typ)
 	default:
 		err = fmt.Errorf("unknown credential kind %s", kind)
 	}
@@ -502,6 +530,7 @@ type vpSpec struct {
 	expires   *time.Time
 	nonce     *string
 	audience  *string
+	extra     map[string]interface{} // additional JWT claims (an array of audiences)
 	flipSig   bool
 }
 
@@ -519,7 +548,8 @@ func (w *world) buildVP(s vpSpec) (string, error) {
 	}
 	hu := s.holder.did.URI()
 	opts := holder.PresentationOptions{Format: format, Holder: &hu, ProofOptions: proof.ProofOptions{
-		Created: s.created, Expires: s.expires, Nonce: s.nonce, Challenge: s.nonce, Domain: s.audience, ProofPurpose: "authentication"}}
+		Created: s.created, Expires: s.expires, Nonce: s.nonce, Challenge: s.nonce, Domain: s.audience, ProofPurpose: "authentication",
+		AdditionalProperties: s.extra}}
 	vp, err := wallet.BuildPresentation(w.ctx, s.creds, opts, &signerDID, false)
 	if err != nil {
 		return "", err
@@ -567,10 +597,10 @@ func submissionFor(def pe.PresentationDefinition, creds []vc.VerifiableCredentia
 }
 
 func nestSubmission(sub map[string]interface{}, vpFormat string, index int) {
+	// (pe.ParseEnvelope decodes the JWT presentations of a JSON array into objects: in an array envelope also a JWT
+	// presentation has to be designated ldp_vp, jwt_vp is refused there)
 	f := "ldp_vp"
-	if vpFormat == "jwt" {
-		f = "jwt_vp"
-	}
+	_ = vpFormat
 	dm := sub["descriptor_map"].([]interface{})
 	for i, e := range dm {
 		m := e.(map[string]interface{})
@@ -677,26 +707,45 @@ func (w *world) buildPresentation(st step, flow string, nonce string, audience s
 			return nil, fmt.Errorf("unknown input descriptor %s", idesc.Id)
 		}
 	}
-	orgVariant := 0
-	orgKind := "org"
+	// --- the envelope: nvp presentations of the holder; the one at position `main` carries the credentials the submission
+	// maps, the one at position `pos` carries the per-presentation defects of this request, the others are valid fillers
+	nvp, main, pos := st.NVP, st.Main, st.Pos
+	if nvp < 1 {
+		nvp, main, pos = 1, 1, 1
+	}
+	if main < 1 || main > nvp || pos < 1 || pos > nvp {
+		return nil, fmt.Errorf("bad envelope shape %d/%d/%d", nvp, main, pos)
+	}
+	onMain := pos == main
+	credDefect, credVariant := "", 0
 	switch {
 	case has(d, "vcsig"):
-		orgKind, orgVariant = "vcsig", st.variant("vcsig", 2)
+		credDefect, credVariant = "vcsig", st.variant("vcsig", 2)
 	case has(d, "revoked"):
-		orgKind = "revoked"
+		credDefect = "revoked"
 	case has(d, "expired"):
-		orgKind, orgVariant = "expired", st.variant("expired", 2)
-	case st.variant("issuer", 2) == 1 && len(d) == 0:
-		orgKind = "node" // valid credential of the issuer subject on the node (StatusList2021 entry, not revoked)
+		credDefect, credVariant = "expired", st.variant("expired", 2)
+	}
+	typed := func(base, defect string) string {
+		if base == "emp" {
+			return "emp+" + defect
+		}
+		return defect
+	}
+	defectIdx := 0
+	for i, k := range kinds {
+		if k == "org" {
+			defectIdx = i
+		}
 	}
 	var creds []vc.VerifiableCredential
-	for _, k := range kinds {
+	for i, k := range kinds {
 		kind, variant := k, 0
-		if k == "org" {
-			kind, variant = orgKind, orgVariant
-		} else if orgKind != "org" && orgKind != "node" && !containsStr(kinds, "org") {
-			// definitions without an organization credential: the credential defect goes to the first credential
-			return nil, fmt.Errorf("credential defect needs an organization credential")
+		switch {
+		case onMain && credDefect != "" && i == defectIdx:
+			kind, variant = typed(k, credDefect), credVariant
+		case k == "org" && st.variant("issuer", 2) == 1 && len(d) == 0:
+			kind = "node" // valid credential of the issuer subject on the node (StatusList2021 entry, not revoked)
 		}
 		c, err := w.cred(kind, vcfmt, h, variant)
 		if err != nil {
@@ -795,31 +844,68 @@ func (w *world) buildPresentation(st step, flow string, nonce string, audience s
 			sub["definition_id"] = "pd-" + uuid.NewString()[:6]
 		}
 	}
-	// --- the presentation
+	// --- the presentations
 	p.created = created
+	good := created
+	goodExp := good.Add(w.unit)
+	if w.unit > 5*time.Second {
+		goodExp = good.Add(5 * time.Second)
+	}
+	// a filler must not satisfy the definition on its own (the submission maps the credentials of `main`)
+	fillerKind := "emp"
+	if len(kinds) == 1 && kinds[0] == "emp" {
+		fillerKind = "org"
+	}
+	fresh := func() *string { // vp_token-bearer burns the nonce of every presentation: each needs its own;
+		n := nonce // the authorization response must carry the session's nonce in all presentations
+		if flow == "s2s" {
+			n = nutsCrypto.GenerateNonce()
+		}
+		return &n
+	}
+	specs := make([]vpSpec, nvp)
+	for k := range specs {
+		e := goodExp
+		a := audience
+		specs[k] = vpSpec{signer: h, holder: h, format: st.Fmt, created: good, expires: &e, nonce: fresh(), audience: &a}
+		if k != main-1 && (st.variant("filler", 2) == 1 || (k == pos-1 && has(d, "signer"))) {
+			c, err := w.cred(fillerKind, vcfmt, h, 0) // a filler may carry a valid credential nobody asked for
+			if err != nil {
+				return nil, err
+			}
+			specs[k].creds = []vc.VerifiableCredential{c}
+		}
+	}
+	specs[main-1].creds = creds
+	specs[main-1].nonce = &nonce
+	if !onMain && credDefect != "" {
+		c, err := w.cred(typed(fillerKind, credDefect), vcfmt, h, credVariant)
+		if err != nil {
+			return nil, err
+		}
+		specs[pos-1].creds = []vc.VerifiableCredential{c}
+	}
+	// --- per-presentation defects, on the presentation at position pos
+	vs := &specs[pos-1]
 	if has(d, "stale") {
 		if st.variant("stale", 2) == 0 {
-			created = created.Add(-60 * time.Second)
+			vs.created = created.Add(-60 * time.Second)
 		} else {
-			created = created.Add(60 * time.Second)
+			vs.created = created.Add(60 * time.Second)
 		}
+		e := vs.created.Add(goodExp.Sub(good))
+		vs.expires = &e
 	}
-	exp := created.Add(w.unit)
-	if w.unit > 5*time.Second {
-		exp = created.Add(5 * time.Second)
-	}
-	expires := &exp
 	if has(d, "validity") {
-		e2 := created.Add(6 * time.Second)
+		e2 := vs.created.Add(6 * time.Second)
 		if st.variant("validity", 2) == 1 {
-			e2 = created.Add(time.Hour)
+			e2 = vs.created.Add(time.Hour)
 		}
-		expires = &e2
+		vs.expires = &e2
 	}
 	if has(d, "nodates") {
-		expires = nil
+		vs.expires = nil
 	}
-	vs := vpSpec{signer: h, holder: h, creds: creds, format: st.Fmt, created: created, expires: expires, nonce: &nonce, audience: &audience}
 	if has(d, "nononce") {
 		vs.nonce = nil
 		if st.variant("nononce", 2) == 1 {
@@ -829,22 +915,21 @@ func (w *world) buildPresentation(st step, flow string, nonce string, audience s
 	}
 	if has(d, "badnonce") {
 		n2 := nutsCrypto.GenerateNonce()
+		if st.foreignNonce != "" {
+			n2 = st.foreignNonce
+		}
 		vs.nonce = &n2
 	}
-	if has(d, "aud") {
-		switch st.variant("aud", 3) {
-		case 0:
-			a := w.public + "/oauth2/" + otherSubject
-			vs.audience = &a
-		case 1:
-			vs.audience = nil
-		case 2:
-			a := "https://evil.example/oauth2/" + asSubject
-			vs.audience = &a
+	audv := st.AudV
+	if audv == "" {
+		audv = "exact"
+		if has(d, "aud") {
+			audv = wrongAuds[st.variant("aud", len(wrongAuds))]
 		}
 	}
+	vs.audience, vs.extra = w.audienceOf(audv, audience, st.Fmt == "jwt", st.variant("audalt", 2))
 	if has(d, "signer") {
-		// the presentation is signed by h2, the credentials are about h1
+		// the presentation is signed by h2, its credentials are about h1
 		vs.signer, vs.holder = w.h2, w.h2
 		if st.variant("signer", 2) == 1 {
 			vs.holder = w.h1
@@ -860,32 +945,39 @@ func (w *world) buildPresentation(st step, flow string, nonce string, audience s
 			}
 		}
 	}
-	raw, err := w.buildVP(vs)
-	if err != nil {
-		return nil, fmt.Errorf("build VP: %w", err)
+	var raws []string
+	for k := range specs {
+		raw, err := w.buildVP(specs[k])
+		if err != nil {
+			return nil, fmt.Errorf("build VP %d: %w", k+1, err)
+		}
+		raws = append(raws, raw)
 	}
-	p.envelope = raw
 	if has(d, "mixed") {
-		// a second presentation of another subject in the same envelope
+		// one more presentation, of another subject, in the same envelope
 		c2, err := w.cred("org", vcfmt, w.h2, 0)
 		if err != nil {
 			return nil, err
 		}
-		e2 := exp
-		// vp_token-bearer burns the nonce of every presentation, so a second presentation needs one of its own;
-		// the authorization response must carry the session's nonce in all presentations
-		nonce2 := nonce
-		if flow == "s2s" {
-			nonce2 = nutsCrypto.GenerateNonce()
-		}
-		raw2, err := w.buildVP(vpSpec{signer: w.h2, holder: w.h2, creds: []vc.VerifiableCredential{c2}, format: st.Fmt, created: created,
-			expires: &e2, nonce: &nonce2, audience: &audience})
+		e2 := goodExp
+		a2 := audience
+		raw2, err := w.buildVP(vpSpec{signer: w.h2, holder: w.h2, creds: []vc.VerifiableCredential{c2}, format: st.Fmt, created: good,
+			expires: &e2, nonce: fresh(), audience: &a2})
 		if err != nil {
 			return nil, err
 		}
-		p.envelope = "[" + jsonEntry(raw) + "," + jsonEntry(raw2) + "]"
-		p.vps = 2
-		nestSubmission(sub, st.Fmt, 0)
+		raws = append(raws, raw2)
+	}
+	p.vps = len(raws)
+	if len(raws) == 1 {
+		p.envelope = raws[0]
+	} else {
+		entries := make([]string, len(raws))
+		for k, raw := range raws {
+			entries[k] = jsonEntry(raw)
+		}
+		p.envelope = "[" + strings.Join(entries, ",") + "]"
+		nestSubmission(sub, st.Fmt, main-1)
 	}
 	sj, _ := json.Marshal(sub)
 	p.submission = string(sj)
@@ -893,6 +985,56 @@ func (w *world) buildPresentation(st step, flow string, nonce string, audience s
 		p.scope = "nope-" + uuid.NewString()[:4]
 	}
 	return p, nil
+}
+
+// the classes of a wrong audience (spec: AllWrongAuds)
+var wrongAuds = []string{"missing", "unrelated", "other_tenant", "extends", "prefix", "array_without"}
+
+// audienceOf realises an audience class for a presentation that should be addressed to `here` (<node>/oauth2/<subject>).
+// JSON-LD proofs have one domain: the array classes fall back to the single value of the same verdict.
+func (w *world) audienceOf(class string, here string, jwt bool, alt int) (*string, map[string]interface{}) {
+	one := func(v string) (*string, map[string]interface{}) { return &v, nil }
+	other := w.public + "/oauth2/" + otherSubject
+	extends := here + "2"
+	if alt == 1 {
+		extends = here + "-east"
+	}
+	switch class {
+	case "exact":
+		return one(here)
+	case "array_with":
+		if jwt {
+			return &here, map[string]interface{}{"aud": []string{other, here}}
+		}
+		return one(here)
+	case "missing":
+		return nil, nil
+	case "unrelated":
+		if alt == 1 {
+			return one("https://evil.example/oauth2/" + asSubject)
+		}
+		return one("did:web:evil.example:iam:" + asSubject)
+	case "other_tenant":
+		return one(other)
+	case "extends":
+		return one(extends)
+	case "prefix":
+		return one(here[:len(here)-1])
+	case "array_without":
+		if jwt {
+			return &other, map[string]interface{}{"aud": []string{other, extends}}
+		}
+		return one(extends)
+	case "slash":
+		return one(here + "/")
+	case "path":
+		return one(here + "/token")
+	case "query":
+		return one(here + "?x=1")
+	case "hostcase":
+		return one(strings.Replace(here, "://localhost", "://LOCALHOST", 1))
+	}
+	panic("unknown audience class " + class)
 }
 
 func jsonEntry(raw string) string {
@@ -1283,7 +1425,8 @@ func (r *runner) stepS2S(i int, st step, replay bool) error {
 	}
 	d := sortedD(sr.st.D)
 	nonceVal := sr.p.nonce
-	if has(d, "nononce") {
+	nvp, main, pos, audv := shapeOf(sr.st)
+	if has(d, "nononce") && main == pos {
 		nonceVal = ""
 	}
 	tokID := "none"
@@ -1294,7 +1437,8 @@ func (r *runner) stepS2S(i int, st step, replay bool) error {
 		switch {
 		case len(d) > 0:
 			r.violate(i, "issued-with-defect", map[string]interface{}{"flow": "s2s", "defect": strings.Join(d, "+")},
-				fmt.Sprintf("vp_token-bearer request with defects %v (variants %v, vp %s, vc %s) was answered with an access token", d, sr.st.Var, sr.st.Fmt, sr.st.VCFmt))
+				fmt.Sprintf("vp_token-bearer request with defects %v (variants %v, vp %s, vc %s; %d presentation(s), credentials in #%d, defect on #%d, audience class %q) was answered with an access token",
+					d, sr.st.Var, sr.st.Fmt, sr.st.VCFmt, nvp, main, pos, audv))
 		case replay && sr.accepted:
 			r.violate(i, "issued-with-defect", map[string]interface{}{"flow": "s2s", "defect": "replay", "fmt": sr.st.Fmt, "postdated": sr.st.Fut > 0},
 				fmt.Sprintf("the identical presentation (format %s, created %+d units from first use) was accepted a second time %.1fs after its first acceptance",
@@ -1318,7 +1462,7 @@ func (r *runner) stepS2S(i int, st step, replay bool) error {
 	}
 	ev := map[string]interface{}{"ev": "s2s", "p": sr.id, "d": d, "n": sr.nonceID, "fmt": sr.st.Fmt, "fut": sr.st.Fut, "def": orPlain(sr.st.Def),
 		"dpop": orNone(sr.st.Dpop), "client": sr.st.Client, "res": resOf(o), "stage": stageOf(o, "issue"), "tok": tokID,
-		"burnt": r.nonceBurnt(nonceVal)}
+		"burnt": r.nonceBurnt(nonceVal), "nvp": nvp, "main": main, "pos": pos, "audv": audv}
 	if replay {
 		ev["ev"] = "s2sreplay"
 	}
@@ -1328,6 +1472,22 @@ func (r *runner) stepS2S(i int, st step, replay bool) error {
 		r.drift("step %d %s %v: model %s/%s, node %s (%s)", i, st.A, d, st.Res, st.Stage, resOf(o), o.desc)
 	}
 	return nil
+}
+
+// shapeOf: the envelope shape and audience class of a step, with the defaults buildPresentation uses
+func shapeOf(st step) (int, int, int, string) {
+	nvp, main, pos := st.NVP, st.Main, st.Pos
+	if nvp < 1 {
+		nvp, main, pos = 1, 1, 1
+	}
+	audv := st.AudV
+	if audv == "" {
+		audv = "exact"
+		if has(st.D, "aud") {
+			audv = wrongAuds[st.variant("aud", len(wrongAuds))]
+		}
+	}
+	return nvp, main, pos, audv
 }
 
 func dpopKeyOf(st step) string {
@@ -1523,8 +1683,7 @@ func (r *runner) stepAuthzResponse(i int, st step) error {
 		if err != nil {
 			return err
 		}
-		nonce = side.nonce
-		st.D = removeStr(st.D, "badnonce")
+		st.foreignNonce = side.nonce
 	}
 	p, err := w.buildPresentation(st, "code", nonce, s.audience, time.Now().Add(-200*time.Millisecond))
 	st.D = dOrig
@@ -1559,6 +1718,7 @@ func (r *runner) stepAuthzResponse(i int, st step) error {
 		o.err, o.desc = rep.oauthError()
 	}
 	d := sortedD(st.D)
+	nvp, main, pos, audv := shapeOf(st)
 	r.res.Checks++
 	if o.code != "" {
 		if s.code != "" {
@@ -1566,12 +1726,14 @@ func (r *runner) stepAuthzResponse(i int, st step) error {
 		}
 		s.code = o.code
 		s.usedCode = false
-		sessDefects(r, s.id, d, p)
+		sessDefects(r, s.id, d, p, fmt.Sprintf("response: vp %s, vc %s, variants %v; %d presentation(s), credentials in #%d, defect on #%d, audience class %q",
+			st.Fmt, st.VCFmt, st.Var, nvp, main, pos, audv))
 		if len(d) > 0 {
 			// The code is only the intermediate artefact. The harness redeems it at once with a valid token request:
 			// a token for it is the violation of C02. The rest of the script is not meaningful any more.
 			r.drift("step %d: authorization code issued for a response with defects %v", i, d)
-			r.res.Trace = append(r.res.Trace, map[string]interface{}{"ev": "authzresp", "s": st.S, "d": d, "fmt": st.Fmt, "res": "code", "stage": "code"})
+			r.res.Trace = append(r.res.Trace, map[string]interface{}{"ev": "authzresp", "s": st.S, "d": d, "fmt": st.Fmt, "res": "code", "stage": "code",
+				"nvp": nvp, "main": main, "pos": pos, "audv": audv})
 			if err := r.stepCodeToken(i, step{A: "CodeToken", S: st.S, Dpop: "none"}); err != nil {
 				return err
 			}
@@ -1581,7 +1743,8 @@ func (r *runner) stepAuthzResponse(i int, st step) error {
 		r.res.CleanFail++
 		r.drift("step %d: clean authorization response rejected: %s %s", i, o.err, o.desc)
 	}
-	r.res.Trace = append(r.res.Trace, map[string]interface{}{"ev": "authzresp", "s": st.S, "d": d, "fmt": st.Fmt, "res": resOf(o), "stage": stageOf(o, "code")})
+	r.res.Trace = append(r.res.Trace, map[string]interface{}{"ev": "authzresp", "s": st.S, "d": d, "fmt": st.Fmt, "res": resOf(o), "stage": stageOf(o, "code"),
+		"nvp": nvp, "main": main, "pos": pos, "audv": audv})
 	r.observe(i, st, map[string]interface{}{"code": o.code != "", "error": o.err, "description": o.desc})
 	if st.Res != "" && resOf(o) != st.Res && !(o.code != "" && len(d) > 0) {
 		r.drift("step %d %s %v: model %s/%s, node %s (%s)", i, st.A, d, st.Res, st.Stage, resOf(o), o.desc)
@@ -1595,17 +1758,25 @@ var sessInfo = struct {
 }{m: map[*runner]map[string]*sessIssue{}}
 
 type sessIssue struct {
+	info    string
 	defects []string
 	p       *presentation
 }
 
-func sessDefects(r *runner, sid string, d []string, p *presentation) {
+func sessNote(si *sessIssue) string {
+	if si == nil {
+		return ""
+	}
+	return si.info
+}
+
+func sessDefects(r *runner, sid string, d []string, p *presentation, info string) {
 	sessInfo.Lock()
 	defer sessInfo.Unlock()
 	if sessInfo.m[r] == nil {
 		sessInfo.m[r] = map[string]*sessIssue{}
 	}
-	sessInfo.m[r][sid] = &sessIssue{defects: d, p: p}
+	sessInfo.m[r][sid] = &sessIssue{defects: d, p: p, info: info}
 }
 
 func (r *runner) stepCodeToken(i int, st step) error {
@@ -1672,7 +1843,7 @@ func (r *runner) stepCodeToken(i int, st step) error {
 		sort.Strings(all)
 		if len(all) > 0 {
 			r.violate(i, "issued-with-defect", map[string]interface{}{"flow": "code", "defect": strings.Join(all, "+")},
-				fmt.Sprintf("authorization_code token request with defects %v was answered with an access token", all))
+				fmt.Sprintf("authorization_code token request with defects %v was answered with an access token (%s)", all, sessNote(si)))
 		}
 		var p *presentation
 		if si != nil {
